@@ -13,6 +13,7 @@ pub mod src;
 pub mod stubs;
 
 pub mod h_known;
+pub mod h_layout;
 pub mod h_merge;
 pub mod h_vmap;
 
